@@ -42,6 +42,8 @@ def check(ctx, tier):
     bcast.column_guard(ctx, tk, "C03.g")
     viewrules.slice_normalisation(ctx, tk, "C03.h")
     viewrules.column_units(ctx, tk, "C03.h")
+    from .. import hazards as _hz, scopes as _sc
+    _hz.generic(ctx, tk, "C03.z", _sc.scope(tk, "C03"))
     return {}
 
 
